@@ -162,9 +162,9 @@ def compile_case(c):
         if c['active']:
             C.emit(1, 'try:'); orig(2)
             C.emit(1, 'except BaseException:')
-            C.emit(2, 'FILTU(%d, 2, %d, %d)(ARG(%d, 2))' % (c['p'], c['use'], c.get('p2', 0), c['a']), 2)
+            C.emit(2, 'FILTU(%d, 2, %d, %d)(ARG(%d, 2, %d))' % (c['p'], c['use'], c.get('p2', 0), c['a'], c.get('sc', 2)), 2)
         else:
-            C.emit(1, 'FILTU(%d, 2, %d, %d)(ARG(%d, 2))' % (c['p'], c['use'], c.get('p2', 0), c['a']), 2)
+            C.emit(1, 'FILTU(%d, 2, %d, %d)(ARG(%d, 2, %d))' % (c['p'], c['use'], c.get('p2', 0), c['a'], c.get('sc', 2)), 2)
     elif op == 'rpoe':
         C.emit(1, 'with RPOE(%d):' % c['rm'], 2)
         C.emit(2, 'ctx = None')
@@ -256,13 +256,16 @@ class Run:
                 pass
             return f
         return Holder(p).meth
-    def arg(self, a, l):
-        r = self._arg(a, l)
+    def arg(self, a, l, sc=None):
+        r = self._arg(a, l, sc)
         cur = sys.exc_info()[1]
-        self.args_seen.append((l, r, cur, self.raw_frames(cur.__traceback__) if cur is not None else None))
+        self.args_seen.append((l, r, cur, self.raw_frames(cur.__traceback__) if cur is not None else None,
+                               self.raw_frames(r.__traceback__) if isinstance(r, BaseException) else None))
         return r
-    def _arg(self, a, l):
+    def _arg(self, a, l, sc=None):
         cur = sys.exc_info()[1]
+        if a == 4:    # a stored exception: raised and caught elsewhere, so it already carries a traceback
+            return self.pre(self.mk((l % 6) if sc is None else sc, 2000 + l))
         if a == 0: return cur
         if a == 1: return self.mk(0, 2000 + l)
         if a == 2: return None
@@ -281,6 +284,11 @@ class Run:
             self.removed.append(path)
             if rm == 2: raise self.mk(0, 3000)
             if rm == 3: raise self.mk(2, 3000)
+            if rm >= 4:
+                import errno
+                e = OSError({4: errno.ENOTEMPTY, 5: errno.EACCES, 6: errno.ENOENT}[rm], 'remover failed')
+                self.reg[id(e)] = 3000; self.keep.append(e)
+                raise e
         return self.fu.remove_path_on_error(self.path, remove=remover)
     def rwc(self, cc, given):
         cls = [self.ex.CausedByException, CausedSub][cc]
@@ -422,7 +430,7 @@ def excutils_frame(ex, lineno):
 
 def class_tag(ex, t):
     if t in CLASSES: return str(CLASSES.index(t))
-    return {RuntimeError: '100', TypeError: '101', AttributeError: '102', ex.CausedByException: '103', CausedSub: '104'}.get(t, t.__name__)
+    return {OSError: '105', PermissionError: '106', FileNotFoundError: '107', RuntimeError: '100', TypeError: '101', AttributeError: '102', ex.CausedByException: '103', CausedSub: '104'}.get(t, t.__name__)
 
 class CausedSub(Exception):
     def __init__(self, message, cause=None, extra=0):
@@ -472,10 +480,10 @@ def facts(run):
         f.update({'with_finished': run.with_finished, 'w_none': w is None, 'w_is_entry': w is not None and w is run.entry_exc,
                   'w_is_body_exc': w is not None and w is run.body_exc, 'w_tb_kept': bool(run.with_tb_ok), 'w_logs2': run.with_logs})
     if run.case['op'] == 'call':
-        l, a, cur, curtb = run.args_seen[-1] if run.args_seen else (None, None, None, None)
+        l, a, cur, curtb, atb = run.args_seen[-1] if run.args_seen else (None, None, None, None, None)
         f.update({'arg_none': a is None, 'arg_is_cur': a is not None and a is cur, 'out_is_arg': out is not None and out is a,
                   'arg_class': CLASSES.index(type(a)) if type(a) in CLASSES else None,
-                  'cur_tb_kept': suffix(curtb, fin)})
+                  'cur_tb_kept': suffix(curtb, fin), 'arg_tb_kept': suffix(atb, fin)})
     if run.case['op'] == 'cause':
         f.update({'cause_is_orig': getattr(out, 'cause', None) is run.orig and run.orig is not None,
                   'dunder_is_orig': getattr(out, '__cause__', None) is run.orig and run.orig is not None,
